@@ -45,7 +45,7 @@ def main(argv: List[str]) -> int:
         if cls is None:
             continue
         t = decl_type(d)
-        for j in root_inputs(mm, d, cap=25 if run.tier == "quick" else 120):
+        for j_index, j in enumerate(root_inputs(mm, d, cap=25 if run.tier == "quick" else 120)):
             try:
                 base_obj = conv.structure(j, cls)
                 base_out = conv.unstructure(base_obj)
@@ -71,6 +71,34 @@ def main(argv: List[str]) -> int:
                     run.violation(f"extras:{d.pyname}:changes{tag}", f"adding undeclared properties to a valid {d.pyname} changes the result: {json_diff(base_out, out)}", {"input_without_extras": j, "input_with_extras": jx, "without": base_out, "with": out, "style": style}, True)
                     stop = True
                     break
+            if not stop and j_index == 0 and isinstance(j, dict):
+                # the same with the process's logging set to DEBUG (an application that traces its traffic) and several undeclared
+                # properties on one node: what the library logs about ignored properties must not change what it returns
+                import logging
+
+                jx = dict(inject_extras(mm, t, j))
+                jx.update({"xVerifFirst": 1, "xVerifSecond": [2], "xVerifThird": {"k": None}})
+                root_logger = logging.getLogger()
+                old_level, old_disable = root_logger.level, logging.root.manager.disable
+                sink = logging.NullHandler()
+                root_logger.addHandler(sink)
+                root_logger.setLevel(logging.DEBUG)
+                logging.disable(logging.NOTSET)
+                try:
+                    sweep += 1
+                    try:
+                        obj = conv.structure(jx, cls)
+                        out = conv.unstructure(obj)
+                        if obj != base_obj or not json_equal(out, base_out):
+                            run.violation(f"extras:{d.pyname}:changes:debug-logging", f"with logging at DEBUG, adding undeclared properties to a valid {d.pyname} changes the result: {json_diff(base_out, out)}", {"input_without_extras": j, "input_with_extras": jx, "logging": "root logger at DEBUG"}, True)
+                            stop = True
+                    except Exception as e:  # noqa
+                        run.violation(f"extras:{d.pyname}:raises:debug-logging", f"with logging at DEBUG, adding undeclared properties to a valid {d.pyname} makes structuring fail: {type(e).__name__}: {str(e)[:160]}", {"input_without_extras": j, "input_with_extras": jx, "logging": "root logger at DEBUG"}, True)
+                        stop = True
+                finally:
+                    root_logger.setLevel(old_level)
+                    root_logger.removeHandler(sink)
+                    logging.disable(old_disable)
             if stop:
                 extras_failures += 1
                 break
